@@ -169,6 +169,10 @@ pub struct GenStats {
     pub discards: u64,
     pub api_invalid: u64,
     pub api_nonfinite: u64,
+    /// the crate's own maths API panicked while building a workload value
+    /// (not C20's business: counted, the candidate is discarded)
+    pub api_panicked: u64,
+    pub api_first_panic: Option<String>,
 }
 
 fn rand_sign(r: &mut Rng) -> u64 {
@@ -353,6 +357,36 @@ fn pair(t: TwoFloat) -> (u64, u64) {
 /// Values produced by the crate's own public API from short random
 /// expression chains. Kept only when reference-valid.
 fn api_chain(r: &mut Rng, st: &mut GenStats) -> Option<(u64, u64)> {
+    // The PRNG is advanced inside the guarded region; a panic abandons the
+    // rest of this candidate's draws, which is still a pure function of the seed.
+    let mut trace = String::new();
+    match crate::common::guarded(|| api_chain_inner(r, &mut trace)) {
+        Ok(x) => {
+            let (hi, lo) = pair(x);
+            if !f64::from_bits(hi).is_finite() {
+                st.api_nonfinite += 1;
+                return None;
+            }
+            if !ref_valid_bits(hi, lo) {
+                // An invalid finite result from the public API is C01's business, not
+                // C20's: counted and discarded here.
+                st.api_invalid += 1;
+                return None;
+            }
+            Some((hi, lo))
+        }
+        Err(msg) => {
+            st.api_panicked += 1;
+            if st.api_first_panic.is_none() {
+                st.api_first_panic = Some(format!("{msg}; chain: {trace}"));
+            }
+            None
+        }
+    }
+}
+
+fn api_chain_inner(r: &mut Rng, trace: &mut String) -> TwoFloat {
+    use std::fmt::Write as _;
     fn leaf(r: &mut Rng) -> TwoFloat {
         match r.below(10) {
             0 => twofloat::consts::PI,
@@ -376,7 +410,9 @@ fn api_chain(r: &mut Rng, st: &mut GenStats) -> Option<(u64, u64)> {
     let mut x = leaf(r);
     let n = r.range(0, 6);
     for _ in 0..n {
-        x = match r.below(16) {
+        let op = r.below(16);
+        let _ = write!(trace, "({:#x},{:#x}) op{} ", x.hi().to_bits(), x.lo().to_bits(), op);
+        x = match op {
             0 => x + leaf(r),
             1 => x - leaf(r),
             2 => x * leaf(r),
@@ -401,18 +437,7 @@ fn api_chain(r: &mut Rng, st: &mut GenStats) -> Option<(u64, u64)> {
             _ => x.cbrt(),
         };
     }
-    let (hi, lo) = pair(x);
-    if !f64::from_bits(hi).is_finite() {
-        st.api_nonfinite += 1;
-        return None;
-    }
-    if !ref_valid_bits(hi, lo) {
-        // An invalid finite result from the public API is C01's business, not
-        // C20's: counted and discarded here.
-        st.api_invalid += 1;
-        return None;
-    }
-    Some((hi, lo))
+    x
 }
 
 /// Draw one reference-valid value.
